@@ -124,6 +124,8 @@ struct PropDef {
 	std::function<CaseResult(Tape &)> run;        // one generated case
 	std::function<bool(Stats &, std::string &)> exhaustive; // optional enumerated part; false + message on violation
 	double tape_scale = 4.0;                      // tape length <= tape_scale * rapidcheck size
+	unsigned case_timeout_s = 0;                  // wall-clock watchdog per case (0 = none): a case that normally takes milliseconds and
+	                                              // exceeds this is reported as CASE-TIMEOUT (the driver re-runs it three times before believing it)
 	int max_size = 100;
 };
 
